@@ -25,6 +25,28 @@ CLAIMED = {
         design="3/C08"),
 }
 
+CLAIMED["C01"] = dict(
+    text="Decides the controller-side necessary conditions of the scheduling guarantee from the source: who may "
+         "launch (call-site enumeration), CFG dominance of the dependency / not-staged / not-done guards and of the "
+         "failed/shutdown-producer tests over every ready.append, that _input_dependencies_satisfied returns True only "
+         "with no active producer and all subjects staged in, an exhaustive truth table of the producer/subject "
+         "partition, single-writer rules for comp_done/comp_staged_in, lock scope and launch order. These hold for every "
+         "interleaving because they constrain the only code that launches or marks components done; the rx delivery "
+         "order of notifications is not modelled.",
+    technique="call-site enumeration (who-may-call), CFG edge-dominance, finite truth table of filter predicates, "
+              "single-writer and lock-scope lint",
+    design="3/C01")
+CLAIMED["C02"] = dict(
+    text="Per-path analysis of the controller callbacks: exactly one finish() per path with the documented mapping, "
+         "no exit of postMortemCheck without restart or final state, comp_done.add and scheduler wake-up on every exit "
+         "of finishedCheck (incl. replay after sleeping), exactly one disposition per ready component, effect order in "
+         "_fake_finish_with_state, verdict computation in Controller.run, precedence in StageState.state and the "
+         "shutdown-propagation table. Decides the obligations without which some ordering leaves a component pending "
+         "or in a rule-violating state; does not explore interleavings.",
+    technique="statement CFG with handler/finally modelling: must-pass-through, per-path call counting, branch-table "
+              "recognition",
+    design="3/C02")
+
 NOT_APPLICABLE = {
     "C20": "arithmetic over floating-point stage weights (sums, int(w*1000) truncation, fallback split) for every "
            "stage count: no structural clause is a necessary condition; needs numeric exploration or a solver, i.e. "
